@@ -26,6 +26,7 @@ EXPLANATION = (
     "EVT_RELEASED / EVT_ABORTED trigger of the same function. Not decided: cross-thread ordering of "
     "notifications (association thread vs provider thread)."
     " Third session: (provider-survives) borrowed from C05 (abort-once, abort-not-after-release, release-only-established) and C04 (artim-run-state): an undefined (event, state) pair kills the provider thread and with it the connection-close notification; wire-match accepts a memoryview / slice of the stream as 'the bytes written'."
+    " Fifth round: (provider-survives) also borrows C03's tls-portable and short-is-closed and C01's evaluated decoders; the wire-match rule is structural over what is written from the stream."
 )
 
 
